@@ -385,6 +385,12 @@ def observe_mutate(sc, _box=None):
                     else:
                         handles.pop(op[1], None)
                         fin("none", [], None, False)
+            elif k == "h.mpop":
+                m0 = handles.get(op[1])
+                if m0 is None:
+                    fin("nohandle", [], None, False)
+                else:
+                    fin("ok", [], pop(b.steps(op[2]), m0, default="dflt"))
             elif k == "h.parent":
                 m = handles.get(op[2])
                 if m is None:
